@@ -12,7 +12,7 @@ import (
 
 func init() {
 	register("C13", runC13,
-		"Decides structural necessary conditions of 'what-if simulations are transactional': every Statement is committed, discarded or handed to the caller on every path; each forward operation logs exactly one record on success and registers an inverse that restores every pod field the forward operation writes, from values captured before the first write, and fires the opposite plugin handler; Commit emits only valid operations, only through commit*, never undoes; cluster side effects are reachable only through Commit/BindPod/Session.Evict; Rollback/Discard undo in reverse order and then truncate.",
+		"Decides structural necessary conditions of 'what-if simulations are transactional': every Statement is committed, discarded or handed to the caller on every path; each forward operation logs exactly one record on success and registers an inverse that restores every pod field the forward operation writes, from values captured before the first write, and fires the opposite plugin handler; Commit emits only valid operations, only through commit*, never undoes; cluster side effects are reachable only through Commit/BindPod/Session.Evict; Rollback/Discard undo in reverse order and then truncate. Also: every previous value a forward operation captures for its inverse is written back by the inverse on every successful path and before any callee that reads that field of the task; a captured object that the operation or its plugin handlers mutate in place is handed over as a copy; plugin handlers fire after the job and node updates.",
 		"that the restored state equals the earlier one for every operation sequence (needs execution or a proof over the data structures); feasibility of Solve returning a live statement together with false")
 }
 
@@ -428,13 +428,13 @@ func runC13(c *Ctx) {
 				mcSite = mc
 			}
 		}
-		w := podFieldWrites(p, f, 0, map[*ssa.Function]bool{})
+		w := podFieldWrites(p, f, 1, map[*ssa.Function]bool{})
 		for k, v := range handlerWrites[firesKind(f)] {
 			if _, ok := w[k]; !ok {
 				w[k] = v
 			}
 		}
-		r := podFieldWrites(p, g, 0, map[*ssa.Function]bool{})
+		r := podFieldWrites(p, g, 1, map[*ssa.Function]bool{})
 		var ws []string
 		for k := range w {
 			ws = append(ws, k)
